@@ -85,6 +85,35 @@ Proof.
     destruct (contains k_number tys), (contains k_integer tys), (contains k_object tys); reflexivity.
 Qed.
 
+(* the same with a format next to a numeric type (int32, int64, float, double ...): the string / array shortcut of
+   type.go:200 needs a type list without number and integer, so it cannot fire *)
+Lemma type_agree_numeric p types format d : jd d -> contains k_number types || contains k_integer types = true ->
+  r_valid (type_validate N p types false format d) =
+  (match types with [] => true | t0 :: ts => existsb (fun t => has_type N t d) (t0 :: ts) end).
+Proof.
+  intros Hd Hnum. destruct types as [|t0 ts]; [discriminate|]. set (tys := t0 :: ts) in *.
+  destruct d as [| | |d32 fd| | |idd ld| |idd md]; try (exfalso; exact Hd); unfold type_validate; cbn [info_for_type is_string_kind is_slice_kind negb andb orb].
+  - transitivity (contains k_null tys); [|rewrite contains_existsb; apply existsb_ext; intros; reflexivity].
+    cbn [length Nat.eqb negb andb]. destruct (contains k_null tys); reflexivity.
+  - transitivity (contains k_boolean tys); [|rewrite contains_existsb; apply existsb_ext; intros; reflexivity].
+    destruct (contains k_number tys), (contains k_integer tys), (contains k_boolean tys), (Z.eqb format 0), (Z.eqb 0 format), (Z.eqb format k_int64), (Z.eqb format k_float64);
+      try discriminate; reflexivity.
+  - transitivity (contains k_string tys); [|rewrite contains_existsb; apply existsb_ext; intros; reflexivity].
+    destruct (contains k_number tys), (contains k_integer tys), (contains k_string tys), (Z.eqb format 0), (Z.eqb 0 format), (Z.eqb format k_int64), (Z.eqb format k_float64);
+      try discriminate; reflexivity.
+  - cbn [jd] in Hd. destruct Hd as [-> _].
+    transitivity (contains k_number tys || (n_is_int N fd && contains k_integer tys)).
+    { cbn [info_for_type]. destruct (contains k_number tys), (contains k_integer tys), (n_is_int N fd), (Z.eqb format 0), (Z.eqb k_float64 format), (Z.eqb format k_int64), (Z.eqb format k_float64);
+        try discriminate; reflexivity. }
+    rewrite !contains_existsb. rewrite (andb_comm (n_is_int N fd)). rewrite <- existsb_and_const, <- existsb_or. reflexivity.
+  - transitivity (contains k_array tys); [|rewrite contains_existsb; apply existsb_ext; intros; reflexivity].
+    destruct (contains k_number tys), (contains k_integer tys), (contains k_array tys), (Z.eqb format 0), (Z.eqb 0 format), (Z.eqb format k_int64), (Z.eqb format k_float64);
+      try discriminate; reflexivity.
+  - transitivity (contains k_object tys); [|rewrite contains_existsb; apply existsb_ext; intros; reflexivity].
+    destruct (contains k_number tys), (contains k_integer tys), (contains k_object tys), (Z.eqb format 0), (Z.eqb 0 format), (Z.eqb format k_int64), (Z.eqb format k_float64);
+      try discriminate; reflexivity.
+Qed.
+
 (* 5.5.1 *)
 Lemma enum_agree p s d : jd d -> Forall jd (s_enum s) ->
   (match common_validate N p s d with None => true | Some r => r_valid r end) = enum_ok N s d.
@@ -581,7 +610,7 @@ Qed.
 
 Definition object_clean (s : schema) : Prop :=
   s_pat_props s = [] /\
-  (forall k ps, In (k, ps) (s_props s) -> s_default ps = None) /\
+  (forall k ps, In (k, ps) (s_props s) -> s_default ps <> None -> ~ In k (s_required s)) /\
   NoDup (map fst (s_props s)) /\
   (forall sa, s_add_props s <> Some (false, Some sa)).
 
@@ -620,21 +649,36 @@ Proof.
 Qed.
 
 Lemma properties_agree p obj m : plain_members m -> forall props,
-  Forall (fun kc => goodc (snd kc)) props -> (forall k ps, In (k, ps) props -> s_default ps = None) -> forall r created,
-  exists r', properties_schema opt rec_sp props p obj m r created = Ok (r', created) /\
+  Forall (fun kc => goodc (snd kc)) props -> forall r created,
+  exists r' created', properties_schema opt rec_sp props p obj m r created = Ok (r', created') /\
+             (forall k, In k created' -> In k created \/ exists ps, In (k, ps) props /\ s_default ps <> None) /\
              r_valid r' = r_valid r && forallb (fun kp => match lookup_val m (fst kp) with Some v => V (snd kp) v | None => true end) props.
 Proof.
-  intros Hm props Hg. induction Hg as [|[pname ps] t Hgp Ht IH]; intros Hdef r created; [exists r; cbn; rewrite andb_true_r; auto|].
+  intros Hm props Hg. induction Hg as [|[pname ps] t Hgp Ht IH]; intros r created.
+  { exists r, created. cbn. rewrite andb_true_r. split; [reflexivity|]. split; [intros k Hk; left; exact Hk | reflexivity]. }
   cbn [properties_schema forallb fst snd]. cbv zeta. cbn [snd] in Hgp.
-  assert (Hdef' : forall k ps0, In (k, ps0) t -> s_default ps0 = None) by (intros k ps0 Hin; apply (Hdef k ps0); right; exact Hin).
   destruct (lookup_val m pname) as [v|] eqn:E.
   - assert (Hjv : jd v).
     { clear - E Hm. induction Hm as [|[k' v'] t' [_ Hj] Ht' IHm]; [discriminate|]. cbn [lookup_val] in E.
       destruct (Z.eqb pname k'); [inversion E; subst; exact Hj | apply IHm; exact E]. }
     unfold rec. match goal with |- context [rec_sp ps ?rn ?rn v] => destruct (goodc_V ps rn rn v Hgp Hjv) as [x [Hx [Hv _]]] end.
-    rewrite Hx. cbn [bind]. destruct (IH Hdef' (merge_for_field r obj pname x) created) as [r' [H1 H2]].
-    exists r'. split; [exact H1|]. rewrite H2, r_valid_merge_for_field, Hv. btauto.
-  - rewrite (Hdef pname ps (or_introl eq_refl)). destruct (IH Hdef' r created) as [r' [H1 H2]]. exists r'. split; [exact H1 | rewrite H2; reflexivity].
+    rewrite Hx. cbn [bind]. destruct (IH (merge_for_field r obj pname x) created) as [r' [c' [H1 [Hc H2]]]].
+    exists r', c'. split; [exact H1|]. split.
+    + intros k Hk. destruct (Hc k Hk) as [Hk' | [ps0 [Hin Hd]]]; [left; exact Hk' | right; exists ps0; split; [right; exact Hin | exact Hd]].
+    + rewrite H2, r_valid_merge_for_field, Hv. btauto.
+  - destruct (s_default ps) as [dv|] eqn:Ed.
+    + match goal with |- context [properties_schema opt rec_sp t p obj m ?r0 (created ++ [pname])] =>
+        destruct (IH r0 (created ++ [pname])) as [r' [c' [H1 [Hc H2]]]];
+        assert (Hr0 : r_valid r0 = r_valid r) by (destruct (opt_skip_schemata opt); reflexivity)
+      end.
+      exists r', c'. split; [exact H1|]. split.
+      * intros k Hk. destruct (Hc k Hk) as [Hk' | [ps0 [Hin Hd]]].
+        -- apply in_app_or in Hk'. destruct Hk' as [Hk' | [<- | []]]; [left; exact Hk'|].
+           right. exists ps. split; [left; reflexivity | rewrite Ed; discriminate].
+        -- right. exists ps0. split; [right; exact Hin | exact Hd].
+      * rewrite H2, Hr0. reflexivity.
+    + destruct (IH r created) as [r' [c' [H1 [Hc H2]]]]. exists r', c'. split; [exact H1|]. split; [|rewrite H2; reflexivity].
+      intros k Hk. destruct (Hc k Hk) as [Hk' | [ps0 [Hin Hd]]]; [left; exact Hk' | right; exists ps0; split; [right; exact Hin | exact Hd]].
 Qed.
 
 Lemma pattern_loop_none s p obj m : s_pat_props s = [] -> forall r, pattern_loop OR rec_sp s p obj m r = Ok r.
@@ -643,19 +687,29 @@ Proof.
   cbn [bind negb]. rewrite orb_true_r. apply IH.
 Qed.
 
-Lemma required_agree s p m r :
-  r_valid (match s_required s with [] => r | _ => r_add r (required_errors s p m []) end) =
+Lemma contains_in k l : contains k l = true <-> In k l.
+Proof.
+  induction l as [|y t IH]; cbn [contains In]; [split; [discriminate | intros []]|].
+  rewrite orb_true_iff, Z.eqb_eq, IH. split; intros [H | H]; auto.
+Qed.
+
+Lemma required_agree s p m r created : (forall k, In k (s_required s) -> ~ In k created) ->
+  r_valid (match s_required s with [] => r | _ => r_add r (required_errors s p m created) end) =
   r_valid r && forallb (fun k => match lookup_member m k with Some _ => true | None => false end) (s_required s).
 Proof.
-  assert (H : forall l, (match flat_map (fun k => match lookup_val m k with
+  intros Hcr.
+  assert (H : forall l, (forall k, In k l -> ~ In k created) ->
+                (match flat_map (fun k => match lookup_val m k with
                                                | Some _ => []
-                                               | None => if contains k [] then [] else [mkMsg C_REQUIRED (p ++ [SDot k]) []]
+                                               | None => if contains k created then [] else [mkMsg C_REQUIRED (p ++ [SDot k]) []]
                                                end) l with [] => true | _ => false end)
                       = forallb (fun k => match lookup_member m k with Some _ => true | None => false end) l).
-  { induction l as [|k t IH]; [reflexivity|]. cbn [flat_map forallb contains]. rewrite (lookup_val_member m k).
-    destruct (lookup_member m k); [exact IH | reflexivity]. }
+  { induction l as [|k t IH]; intros Hl; [reflexivity|]. cbn [flat_map forallb]. rewrite (lookup_val_member m k).
+    assert (Hk : contains k created = false).
+    { destruct (contains k created) eqn:E; [|reflexivity]. apply contains_in in E. exfalso. apply (Hl k (or_introl eq_refl) E). }
+    rewrite Hk. destruct (lookup_member m k); [apply IH; intros k' Hk'; apply Hl; right; exact Hk' | reflexivity]. }
   destruct (s_required s) as [|k0 ks] eqn:E; [cbn; rewrite andb_true_r; reflexivity|].
-  rewrite r_valid_add. unfold required_errors. rewrite E, H. reflexivity.
+  rewrite r_valid_add. unfold required_errors. rewrite E, (H (k0 :: ks) Hcr). reflexivity.
 Qed.
 
 Lemma precheck_off p m r : precheck opt p m r = r.
@@ -732,9 +786,11 @@ Proof.
     - destruct (additional_agree s p id m K Hpp Hm new_res) as [r1 [G1 G2]]. exists r1. split; [exact G1|]. rewrite G2. unfold add_rule. rewrite Ea.
       cbn [r_valid new_res r_errs andb]. reflexivity. }
   destruct H1 as [r1 [G1 Hv1]]. rewrite G1. cbn [bind].
-  destruct (properties_agree p id m Hm (s_props s) Kp Hdef r1 []) as [r2 [G2 Hv2]]. rewrite G2. cbn [bind].
+  destruct (properties_agree p id m Hm (s_props s) Kp r1 []) as [r2 [created [G2 [Hcr Hv2]]]]. rewrite G2. cbn [bind].
   rewrite (pattern_loop_none s p id m Hpp). eexists. split; [reflexivity|]. f_equal.
-  rewrite required_agree, Hv2, Hv1, Hsz. fold required.
+  rewrite (required_agree s p m r2 created).
+  2:{ intros k Hk Hin. destruct (Hcr k Hin) as [[] | [ps [Hps Hd]]]. apply (Hdef k ps Hps Hd Hk). }
+  rewrite Hv2, Hv1, Hsz. fold required.
   rewrite <- (swap_iteration V (s_props s) m Hnd Hndm).
   transitivity (required && (forallb (fun kv => has_prop s (fst kv) || match s_add_props s with Some (_, Some sa) => V sa (snd kv) | Some (false, None) => false | _ => true end) m &&
                              forallb (fun kv => match lookup_schema (s_props s) (fst kv) with Some ps => V ps (snd kv) | None => true end) m) && dv); [|btauto].
@@ -748,7 +804,10 @@ Definition nullsafe (s : schema) : Prop := s_all_of s = [] /\ s_any_of s = [] /\
 
 Definition local_clean (s : schema) : Prop :=
   (allow_null = true -> nullsafe s) /\
-  s_ref s = None /\ s_format s = 0 /\ s_nullable s = false /\ Forall jd (s_enum s) /\
+  s_ref s = None /\
+  (* a format only next to a numeric type: elsewhere the string / array shortcut of the type validator applies (finding class) *)
+  (s_format s = 0 \/ contains k_number (s_types s) || contains k_integer (s_types s) = true) /\
+  s_nullable s = false /\ Forall jd (s_enum s) /\
   (s_pattern s = 0 \/ o_re_ok OR (s_pattern s) = true) /\
   array_clean s /\ object_clean s /\ comp_clean s /\ bounds_fin s.
 
@@ -759,22 +818,27 @@ Lemma body_agree s p q d : local_clean s -> kids goodc s -> jd d ->
   exists r, sv_body OR N opt rec_sp s p q d = Ok r /\ d4_body OR N recd s d = Some (r_valid r).
 Proof.
   intros [Hns [_ [Hfmt [Hnull [Henum [Hpat [Harr [Hobj [Hcomp Hbf]]]]]]]]] K Hd.
-  pose proof (type_agree p (s_types s) d Hd) as Ht.
   pose proof (enum_agree p s d Hd Henum) as He.
   destruct (props_agree p s d K Hcomp Hd) as [x2 [bc [Hx2 [Hc Hvx2]]]].
-  unfold sv_body, d4_body. rewrite Hfmt, Hnull in *. rewrite Hc.
+  unfold sv_body, d4_body. rewrite Hnull in *. rewrite Hc.
   set (r0 := if opt_skip_schemata opt then new_res else mkRes [] 0 [s_default s] [] []).
   assert (Hr0 : r_valid r0 = true) by apply r_valid_r0.
-  set (r1 := if type_applies (s_types s) 0 then r_inc (merge r0 (Some (type_validate N p (s_types s) false 0 d))) else r0).
+  set (r1 := if type_applies (s_types s) (s_format s) then r_inc (merge r0 (Some (type_validate N p (s_types s) false (s_format s) d))) else r0).
   assert (Hr1 : r_valid r1 = type_ok N s d).
-  { unfold r1, type_ok. rewrite <- Ht. destruct (type_applies (s_types s) 0); [rewrite r_valid_inc, r_valid_merge, Hr0; reflexivity | exact Hr0]. }
+  { unfold r1, type_ok. destruct Hfmt as [Hf0 | Hnum].
+    - rewrite Hf0. rewrite <- (type_agree p (s_types s) d Hd). destruct (type_applies (s_types s) 0); [rewrite r_valid_inc, r_valid_merge, Hr0; reflexivity | exact Hr0].
+    - rewrite <- (type_agree_numeric p (s_types s) (s_format s) d Hd Hnum).
+      assert (Ha : type_applies (s_types s) (s_format s) = true).
+      { unfold type_applies. destruct (s_types s); [discriminate | reflexivity]. }
+      rewrite Ha, r_valid_inc, r_valid_merge, Hr0. reflexivity. }
   destruct d as [|b|x|d32 f| | |id l| |id m]; try (exfalso; exact Hd).
   - (* null: only the type and the enumeration are looked at; the schema has no composition keyword *)
     cbn [jd] in Hd. destruct (Hns Hd) as [Hao [Hany Hnot]]. destruct Hcomp as [Hone Hdeps].
     assert (Hx2v : bc = true).
     { unfold composition_ok in Hc. rewrite Hao, Hany, Hnot, Hone in Hc. cbn in Hc. inversion Hc. reflexivity. }
-    assert (Htn : r_valid (type_validate N p (s_types s) false 0 VNil) = type_ok N s VNil).
-    { unfold type_ok. rewrite <- Ht. unfold type_applies. cbn [Z.eqb negb orb]. destruct (s_types s); reflexivity. }
+    assert (Htn : r_valid (type_validate N p (s_types s) false (s_format s) VNil) = type_ok N s VNil).
+    { unfold type_ok, type_validate. destruct (s_types s) as [|t0 ts]; [reflexivity|]. cbn [length Nat.eqb negb andb].
+      transitivity (contains k_null (t0 :: ts)); [destruct (contains k_null (t0 :: ts)); reflexivity | rewrite contains_existsb; apply existsb_ext; intros; reflexivity]. }
     cbv beta iota zeta. fold r0. eexists. split; [reflexivity|]. cbn [numeric_ok string_ok array_ok object_ok].
     repeat (rewrite r_valid_inc || rewrite r_valid_merge). rewrite Hr0, He, Htn, Hx2v.
     match goal with |- all_opt [Some ?a; Some ?b; Some true; Some true; Some true; Some true; Some true] = _ =>
